@@ -668,7 +668,8 @@ def gen_factory_program(rng: Any) -> dict[str, Any]:
                 else:
                     will_crash = True
             spec = {"tid": tid, "via": rng.choice(["start_task", "start_task_soon"]), "from": rng.choice(["owner", "foreign", "foreign_sync", "task"]),
-                    "dur": rng.choice([0.125, 0.625, 1.125, 2.625, 5.125]), "outcome": outcome, "exc": rng.choice(["ValueError", "Custom", "Group"]),
+                    # (0: the task never waits for anything - it is over before whoever spawned it runs again)
+                    "dur": rng.choice([0, 0.125, 0.625, 1.125, 2.625, 5.125]), "outcome": outcome, "exc": rng.choice(["ValueError", "Custom", "Group"]),
                     "task_status": rng.random() < 0.5, "name": rng.choice([None, f"task{tid}"]),
                     "func_form": rng.choice(["function", "function", "partial", "object", "unhashable_object", "lambda"])}
             if rng.random() < 0.3:
@@ -722,6 +723,7 @@ class FactoryRun:
         self.handle_checks: list[dict[str, Any]] = []
         self.model_live: set[int] = set()
         self.cancel_requested: set[int] = set()
+        self.unknown_handles: list[Any] = []  # (kept alive so that their ids stay unique)
         self.going_down = False
         self.after_close: dict[str, Any] = {}
 
@@ -761,7 +763,8 @@ class FactoryRun:
             if child is not None:
                 await run.spawn(child, "task", ctx)
             try:
-                await anyio.sleep(spec["dur"])
+                if spec["dur"]:
+                    await anyio.sleep(spec["dur"])
             except BaseException as e:
                 if is_cancellation(e) and spec.get("raise_on_cancel") and tid in run.cancel_requested:
                     # the task's clean-up fails while it is being cancelled through its handle: an Exception escapes the task
@@ -831,8 +834,12 @@ class FactoryRun:
     def check_handles(self, when: str) -> None:
         got = self.factory.all_task_handles()
         known = {id(h): tid for tid, h in self.handles.items()}
-        got_tids = sorted(known.get(id(h), f"<unknown {h!r}>") for h in got)
-        self.log("handles", "driver", when=when, got=got_tids)
+        got_tids = sorted((known.get(id(h), f"<unknown {h!r}>") for h in got), key=str)
+        # handles the harness does not know yet (their start_task() call has not returned to whoever made it) are kept as objects
+        # and resolved by the checker, which knows every handle by then
+        unknown = [h for h in got if id(h) not in known]
+        self.unknown_handles.extend(unknown)
+        self.log("handles", "driver", when=when, got=[t for t in got_tids if not isinstance(t, str)], unknown_ids=[id(h) for h in unknown])
         # what the caller got is the caller's: emptying it (as code that works a snapshot off does) changes nothing for the factory
         try:
             got.clear()
@@ -1095,6 +1102,8 @@ def check_factory(run: FactoryRun) -> tuple[list[dict[str, Any]], dict[str, int]
             bad("factory-handle-name", f"handle name {e['name']!r}, expected {spec['name']!r}")
     # ---- handle set at every driver step
     live: set[int] = set()
+    spawned_so_far: set[int] = set()
+    finished_so_far: set[int] = set()  # (a task may be over before the call that spawned it has returned)
     cursor = 0
     checks = [e for e in ev if e["kind"] == "handles"]
     for chk in checks:
@@ -1102,15 +1111,27 @@ def check_factory(run: FactoryRun) -> tuple[list[dict[str, Any]], dict[str, int]
             break
         for e in ev[cursor:chk["seq"]]:
             if e["kind"] == "spawned":
-                live.add(e["actor"])
+                spawned_so_far.add(e["actor"])
             elif e["kind"] in ("task-end", "task-ctx-closed") and fin.get(e["actor"]) is e:
-                live.discard(e["actor"])
+                finished_so_far.add(e["actor"])
+        live = spawned_so_far - finished_so_far
         cursor = chk["seq"]
         # tasks whose end is recorded at the very instant of the check are ambiguous only if no scheduling round lay between:
         # durations are on a .125 grid and the driver's on a .5 grid, so that never happens
         inc("handle_set_checks")
         never_ran = {t for t in live if t not in start and t in spawned}
-        got = [x for x in chk["got"]]
+        by_id = {id(h): t for t, h in run.handles.items()}
+        got = [x for x in chk["got"]] + [by_id.get(i, f"<a handle nobody was given: {i}>") for i in chk.get("unknown_ids", [])]
+        # a spawn whose call has not returned yet (the spawning task is still inside start_task()): its task may or may not
+        # be listed already - the statement speaks of spawned tasks
+        in_flight = {t for t, sc in spawn_call.items() if sc["seq"] < chk["seq"] and (t not in spawned or spawned[t]["seq"] > chk["seq"])}
+        got = [x for x in got if x not in in_flight]
+        live = live - in_flight
+        # (the handle of an in-flight spawn that is later cancelled is never handed to anybody: such a handle cannot be named)
+        anonymous_in_flight = [t for t in in_flight if t not in run.handles]
+        nameless = [x for x in got if isinstance(x, str)]
+        if len(nameless) <= len(anonymous_in_flight):
+            got = [x for x in got if not isinstance(x, str)]
         if sorted(got, key=str) != sorted(live, key=str):
             extra = [x for x in got if x not in live]
             missing = [x for x in live if x not in got]
@@ -1134,10 +1155,15 @@ def check_factory(run: FactoryRun) -> tuple[list[dict[str, Any]], dict[str, int]
         e = end.get(tid)
         if fatal_seq is not None and (e is None or e["seq"] >= fatal_seq):
             continue
+        if tid not in spawned:
+            continue  # its start_task() call never returned (the spawning task was cancelled inside it): part of that task's fate
         if e is None:
             bad("factory-task-lost", f"task {tid} started but never ended although the owning context was left")
             continue
-        if tid in cancels and cancels[tid]["seq"] < e["seq"] and cancels[tid]["vt"] < s["vt"] + spec["dur"]:
+        natural_end = s["vt"] + spec["dur"]
+        cancelled_in_time = tid in cancels and cancels[tid]["seq"] < e["seq"] and (
+            cancels[tid]["vt"] < natural_end or (e["how"] == "cancelled" or e.get("on_cancel")) and abs(cancels[tid]["vt"] - natural_end) < 1e-9)
+        if cancelled_in_time:
             inc("tasks_cancelled_through_handle")
             if e.get("on_cancel"):
                 inc("tasks_raising_while_cancelled_through_handle")
